@@ -1267,7 +1267,9 @@ def mpf_cosh_sinh(x, prec, rnd=round_fast, tanh=0):
         wp += (-mag)
     # Does exp(-2*x) vanish?
     if mag > 10:
-        if 3*(1<<(mag-1)) > wp:
+        # exp(-2*|x|) < 2**-wp needs 2*|x|*log2(e) > wp; here |x| >= 2**(mag-1)
+        # and 2*log2(e) = 2.885... > 23/8
+        if 23*(1<<(mag-1)) > 8*wp:
             # XXX: rounding
             if tanh:
                 return mpf_perturb([fone,fnone][sign], 1-sign, prec, rnd)
